@@ -59,11 +59,17 @@ def scenario(draw) -> Dict[str, Any]:
         if draw(st.integers(0, 5)) == 0:
             # a peer that repeats itself: the very same bytes again after a pause (a poller re-sending an identical query, a
             # responder re-announcing), with nothing else in between - and that repeat is duplicated by the link as well
-            events.append(dict(ev, same_bytes_as_previous=True, gap=draw(st.sampled_from([999, 1000, 1001, 1500, 3000, 5000]))))
+            # (also less than a second later: a querier retransmitting quickly - the instance takes that for a repeat, in both runs alike)
+            events.append(dict(ev, same_bytes_as_previous=True, gap=draw(st.sampled_from([300, 600, 999, 1000, 1001, 1500, 3000, 5000]))))
         elif ev['kind'] == 'query' and draw(st.integers(0, 4)) == 0:
             # two hosts asking the very same thing (two browsers started together, two stub resolvers with one id): the same bytes
             # from another source within a second - a query of its own, whose link-layer duplicate must change nothing either
             events.append(dict(ev, same_bytes_other_source=True, gap=draw(st.sampled_from([0, 1, 200, 900, 999, 1001]))))
+    if draw(st.integers(0, 7)) == 0:
+        # a querier that retransmits a mixed QU+QM query 300-600 ms later (the link duplicates every copy)
+        q0 = {'kind': 'query', 'qs': [['type', 0, 12, False], ['inst', 0, draw(st.sampled_from([33, 16])), True]], 'probe': False, 'tc': False,
+              'port': 5353, 'client': 0, 'gap': draw(st.sampled_from([0, 3000]))}
+        events = [q0, dict(q0, same_bytes_as_previous=True, gap=draw(st.sampled_from([300, 600])))] + events[:4]
     return {'seed': draw(st.integers(0, 10**6)), 'services': draw(st.sampled_from([[0], [0, 1]])),
             'browsers': draw(st.lists(st.lists(st.integers(0, 2), min_size=1, max_size=2, unique=True).map(sorted), min_size=1, max_size=2)),
             'settle_ms': draw(st.sampled_from([1500, 40000])), 'events': events,
